@@ -44,6 +44,14 @@ CHECKS['C10'] = dict(
     level='proof',
     text='Theorems in Coq over the connection model: exactly the open and the two half-closed states count (generated STREAM_OPEN table, by computation; reserved streams do not); open_outbound_streams / open_inbound_streams return the RFC count and the lazy clean-up of closed streams changes no count; a locally opened stream succeeds only if count + 1 <= the peer limit and otherwise raises TooManyStreamsError with nothing emitted; a peer HEADERS beyond the acknowledged local limit is rejected and one within it passes the check (both comparisons extracted from connection.py). The full outbound bound is refuted for reserved-stream activation (known finding F-C10-1, vm_compute witness). Churn programs with limit changes on both sides are compared with the model; an oracle recounts streams independently.',
     design='7.C10', technique='Coq theorems over the connection model with extracted guards + table computation + differential correspondence')
+CHECKS['C11'] = dict(
+    level='proof',
+    text='Theorems in Coq over Settings (per-key queues) with the translated validator: __setitem__ queues a valid value behind the value in force and an invalid one changes nothing; from a settled object, ONE SETTINGS frame (any number of distinct known or unknown identifiers) followed by ONE acknowledgement gives every identifier of the frame exactly its value, leaves every other identifier untouched and is settled again (induction over the frame; this is the received-SETTINGS path and the local path with one frame in flight); a raising update_settings appends nothing. The general one-frame-per-ACK matching is refuted with three vm_compute witnesses (known findings F-C11-1..3). Settings-heavy programs are compared with the model on both Settings objects (every queued value), and a per-frame reference oracle judges the implementation traces.',
+    design='7.C11', technique='Coq theorems by induction over SETTINGS frames + refutation witnesses + differential correspondence')
+CHECKS['C18'] = dict(
+    level='proof',
+    text='Theorems in Coq: whenever receive_data raises an h2 exception, the final state is a state reached inside the call, closed, with exactly one frame appended: GOAWAY(last_stream_id = highest inbound stream id, code = the exception code) (induction over the receive loop, any number of frames, leftovers of earlier failing batches included); closed form of _terminate_connection; the code of every exception class read from the class attributes; oversized frame -> FrameTooLargeError (extracted guard), oversized header list -> ENHANCE_YOUR_CALM. COMPRESSION_ERROR for undecodable blocks is a known finding (tests pin PROTOCOL_ERROR). Violation-heavy traffic is compared with the model and judged by an independent error-category classifier.',
+    design='7.C18', technique='Coq induction over the receive loop + generated exception table + differential correspondence with classifier oracle')
 NA_REASON = {}
 def main():
     checks = []
